@@ -618,3 +618,33 @@ def url_rule(A, rule):
                         behaviour='the client asks for another protocol version / endpoint / '
                                   'scheme or drops the caller\'s query string')
             A.floor(rule, 'url paths %s/%s' % (tr, secure), len(ps), 1)
+
+
+def send_request_rule(A, cf, rule):
+    """_send_request turns every failure of the HTTP request - including a timeout - into a
+    str result; the read/write loops rely on that to declare the connection lost."""
+    fi = A.func(cf['cls'] + '._send_request')
+    from sa.cfg import _handler_names
+    found = False
+    for n in ast.walk(fi.node):
+        if isinstance(n, ast.Try):
+            for h in n.handlers:
+                names = _handler_names(h) or ['*']
+                rets = [x for st in h.body for x in ast.walk(st) if isinstance(x, ast.Return)]
+                if rets:
+                    found = True
+                    if cf['name'] == 'asyncio':
+                        ok = ('ClientError' in names or '*' in names or 'Exception' in names) and \
+                            ('TimeoutError' in names or '*' in names or 'Exception' in names)
+                        want = 'aiohttp.ClientError and asyncio.TimeoutError'
+                    else:
+                        ok = 'RequestException' in names or '*' in names or 'Exception' in names
+                        want = 'requests.exceptions.RequestException'
+                    A.check(ok, rule + '.request-failures', '%s _send_request catches %s and '
+                            'reports them as a str result' % (cf['name'], want), A.site(fi, h),
+                            key='%s-send-request-handlers' % cf['name'], detail=names,
+                            behaviour='a request that times out raises into the read loop: the '
+                                      'task dies, no disconnect event, the client stays '
+                                      '"connected" to a silent server')
+    if not found:
+        raise AnalysisError('%s: no failure handler in %s' % (rule, fi.qualname))
